@@ -79,7 +79,9 @@ Splits(s) == \* all ways to cut s into at most 3 (possibly empty) consecutive pa
           \cup {<<SubSeq(s, 1, q[1]), SubSeq(s, q[1] + 1, q[2]), SubSeq(s, q[2] + 1, Len(s))>> :
                    q \in {r \in (0..Len(s)) \X (0..Len(s)) : r[1] <= r[2]}}
 ReadSeqs == { <<96>>, <<1, 95>>, <<15, 1, 16, 17, 31, 16>>, <<16, 16, 16, 16, 16, 16>>, <<17, 15, 33, 31>>, <<0, 32, 0, 33, 31>>,
-              <<31, 1, 32, 32>>, <<33, 31, 32>>, <<8, 16, 8>>, <<8, 32, 3>>, <<1, 16, 16>>, <<5, 12, 20>>, <<15, 2, 15, 2>>, <<3, 30, 7>>, <<7, 17, 9, 33>>, <<9, 48>>, <<1, 1, 1, 1, 1, 1, 1, 1, 1, 1, 1, 1, 1, 1, 1, 1, 1, 79>>, <<32>>, <<16>>, <<5>> }
+              <<31, 1, 32, 32>>, <<33, 31, 32>>, <<8, 16, 8>>, <<8, 32, 3>>, <<1, 16, 16>>, <<5, 12, 20>>, <<15, 2, 15, 2>>, <<3, 30, 7>>, <<7, 17, 9, 33>>, <<9, 48>>, <<1, 1, 1, 1, 1, 1, 1, 1, 1, 1, 1, 1, 1, 1, 1, 1, 1, 79>>, <<32>>, <<16>>, <<5>>,
+              \* word-sized reads (also taken through next_u32 / next_u64 by the harness)
+              <<4, 4, 8, 16>>, <<8, 4, 20>>, <<4, 28>>, <<3, 4, 8, 4, 13>> }
 XofScripts == {[t |-> "xof", dst_parts |-> ds, binder_parts |-> bs, reads |-> r] : ds \in Splits(Bytes4), bs \in Splits(<<9, 8, 7, 6>>), r \in ReadSeqs}
               \cup {[t |-> "xof", dst_parts |-> <<ds>>, binder_parts |-> <<bs>>, reads |-> r] :
                        ds \in {<<>>, <<1>>, <<1, 2, 3, 4, 5>>}, bs \in {<<>>, <<7>>, [i \in 1..40 |-> i]}, r \in ReadSeqs}
